@@ -38,8 +38,9 @@ class CountingList(list):
     reads = 0
 
     def __getitem__(self, i):
+        v = list.__getitem__(self, i)       # (an out-of-range probe is not a read)
         self.reads += 1
-        return list.__getitem__(self, i)
+        return v
 
     def __iter__(self):
         for j in range(len(self)):
@@ -51,8 +52,9 @@ class CountingDict(dict):
     reads = 0
 
     def __getitem__(self, k):
+        v = dict.__getitem__(self, k)
         self.reads += 1
-        return dict.__getitem__(self, k)
+        return v
 
 
 def _observe(ds, i):
@@ -175,6 +177,77 @@ def body_profile(backing, n, ops, *args):
         ProfilingDataset.timestamp = saved
 
 
+def body_interleave(backing, n, ops, scenario, *args):
+    """hit counts stay truthful when an iteration is interleaved with indexing or with a second iterator (linear pipelines,
+    ground truth = instrumented source container)"""
+    xs, ys, qs, rs, rest = U.split_params(args)
+    holder = {}
+
+    def wrap(c):
+        holder['c'] = CountingList(c) if isinstance(c, list) else CountingDict(c)
+        return holder['c']
+    try:
+        b = U.build(backing, n, ops, xs, ys, qs, rs, wrap=wrap)
+    except U.Refusal:
+        rt.reached()
+        return True
+    ds, ref = b.ds, b.ref
+    if not ref.iter_ok or len(ref.vals) < 2:
+        rt.reached()
+        return True
+    saved = ProfilingDataset.timestamp
+    ProfilingDataset.timestamp = staticmethod(_Clock())
+    try:
+        prof = ProfilingDataset(ds)
+        inner = _innermost(prof)
+        holder['c'].reads = 0
+        m = len(ref.vals)
+        delivered = 0
+        if scenario == 'index_between':
+            it = iter(prof)
+            first = [next(it)]
+            extra = 0
+            if ref.indexable:
+                _ = prof[m - 1]
+                extra = 1
+            rest_ = list(it)
+            delivered = 1 + len(rest_) + extra
+            ok_vals = first + rest_ == ref.vals
+        elif scenario == 'two_iterators':
+            pairs = list(zip(prof, prof))
+            delivered = 2 * len(pairs)
+            ok_vals = [a for a, _ in pairs] == ref.vals and [b_ for _, b_ in pairs] == ref.vals
+        else:   # 'abandon': an iteration that is dropped part-way, then a full one
+            it = iter(prof)
+            first = next(it)
+            del it
+            full = list(prof)
+            delivered = 1 + len(full)
+            ok_vals = full == ref.vals and first == ref.vals[0]
+        rt.reached()
+        if not ok_vals:
+            return False
+        if prof.hit_count[0] != delivered or prof.hit_count[1] != 0:
+            return False
+        if inner is not None and inner.hit_count[0] - inner.hit_count[1] != holder['c'].reads:
+            return False              # successful fetches from the source == reads of the source container (failed fetches are counted separately)
+        return True
+    finally:
+        ProfilingDataset.timestamp = saved
+
+
+def _iconds(tier, seed):
+    ops_list = [(('map',),), (('map',), ('map',)), (('sl', 'm1'),), (('map',), ('batch', 2, False)), (('filt',),), (('copy',),), (('map',), ('items',))]
+    out = []
+    for backing in ('list', 'dict'):
+        for n in (2, 3):
+            for ops in ops_list:
+                for sc in ('index_between', 'two_iterators', 'abandon'):
+                    if U.valid_program(n, ops[0] if len(ops) == 1 and isinstance(ops[0][0], tuple) else ops, 3):
+                        out.append((backing, n, ops[0] if len(ops) == 1 and isinstance(ops[0][0], tuple) else ops, sc))
+    return out
+
+
 def conditions(tier, seed):
     out, seen = [], set()
     sel = ('sl', 'idx', 'nparr')
@@ -192,6 +265,9 @@ def conditions(tier, seed):
         for a, b in U.class_pairs(U.ALPHABET):
             if a[0] in sel and b[0] in sel:
                 continue
+            if a[0] in ('cat_b', 'isp_b', 'cat_self', 'isp_self', 'tile') and b[0] in sel:
+                add('dict', 1, (a, b))
+                continue
             add('dict', 2, (a, b))
     else:
         for backing in ('list', 'dict'):
@@ -205,6 +281,8 @@ def conditions(tier, seed):
 
 
 FAMILIES = [
+    Family('interleave', body_interleave, ['backing', 'n', 'ops', 'scenario'], U.POOL_PARAMS, _iconds, timeout=60,
+           desc='hit counts under partial iteration + indexing, two interleaved iterators, an abandoned iteration'),
     Family('profile', body_profile, ['backing', 'n', 'ops'], U.POOL_PARAMS + [('i', 'int')], conditions, timeout=dict(quick=60, thorough=300),
            desc='ProfilingDataset(p) vs p: examples, order, errors, len, ds[i], keys; p untouched; hit counts'),
 ]
